@@ -119,7 +119,12 @@ func (l *Loader) Next() (entry *BinEntry, err error) {
 			rtype := l.ReadByteP()
 			t = rtype
 		} else {
+			// continuation chunk of a value that is emitted in several chunks: the expire / idle /
+			// freq opcodes only precede the first chunk, the key's attributes apply to every chunk
 			t = l.lastEntry.Type
+			entry.ExpireAt = l.lastEntry.ExpireAt
+			entry.IdleTime = l.lastEntry.IdleTime
+			entry.Freq = l.lastEntry.Freq
 		}
 		entry.Type = t
 		switch t {
